@@ -6,9 +6,9 @@
     fsObjects.Create and commit, isValidKey's syntax, mem's copy flags; when
     the source changes they no longer typecheck against the proved lemmas.
     [D] is SHA-256 as a function from byte strings to digests. *)
-From Coq Require Import List NArith ZArith Bool.
+From Coq Require Import List NArith ZArith Bool Lia.
 From Verif Require Import Lib.Bytes Obj.Base Obj.CheckReader Obj.CheckReaderProofs
-  Obj.Store Obj.StoreProofs Obj.StoreLive Obj.Mem Obj.MemProofs Obj.ObjGen Gen.ObjSkel.
+  Obj.Store Obj.StoreProofs Obj.StoreLive Obj.StoreMulti Obj.Mem Obj.MemProofs Obj.ObjGen Gen.ObjSkel.
 Import ListNotations.
 Local Open Scope N_scope.
 
@@ -16,7 +16,7 @@ Local Open Scope N_scope.
     script each) over an initial directory [objs0], after schedule [sched]
     (which thread moves, whether its system call fails). *)
 Notation runs D objs0 inputs sched :=
-  (run D gen_fs_commit gen_key_len gen_key_ranges (init_sys gen_fs_create objs0 inputs) sched).
+  (run D true gen_fs_commit gen_key_len gen_key_ranges (init_sys gen_fs_create objs0 inputs) sched).
 
 (** ** File-system store *)
 
@@ -112,7 +112,7 @@ Theorem C18_fs_no_deadlock : forall D objs0 inputs sched,
   wf_objs D objs0 ->
   ~ all_done (runs D objs0 inputs sched) ->
   exists tid t, nth_error (sthr (runs D objs0 inputs sched)) tid = Some t /\
-                tstep D gen_fs_commit gen_key_len gen_key_ranges false
+                tstep D true gen_fs_commit gen_key_len gen_key_ranges false
                       (sfs (runs D objs0 inputs sched)) tid t <> None.
 Proof. exact fs_no_deadlock. Qed.
 Print Assumptions C18_fs_no_deadlock.
@@ -178,6 +178,80 @@ Theorem C18_digest_key_is_valid : forall d,
 Proof. exact hex_key_valid. Qed.
 Print Assumptions C18_digest_key_is_valid.
 
+(** ** Several store objects on one directory, files already in tmp/,
+    threads calling Open and Has
+
+    [excl] arbitrary ([false]: Lock excludes nobody — an upper bound for any
+    number of store objects, each with its own mutex, on the same directory);
+    [g] and [og] arbitrary guards (any discipline that only makes creating or
+    observing threads wait: one mutex per store object — [guard_stores] —,
+    the read lock of Open/Has or no read lock at all); [tmp0] files already
+    lying in tmp/ under names no call will pick.  The one fact about the
+    file system used here is that os.Rename installs the complete temp file
+    under the final name in one step (statement CkRemoveOrRename of the
+    generated skeleton); see [C18_copy_commit_open_sees_prefix_refuted]. *)
+
+Notation gruns D excl g objs0 tmp0 inputs sched :=
+  (grun D excl gen_fs_commit gen_key_len gen_key_ranges g
+        (init_sys_tmp gen_fs_create objs0 tmp0 inputs) sched).
+
+Theorem C18_multi_objects_hash_to_their_key : forall D excl g objs0 tmp0 inputs sched k c,
+  wf_objs D objs0 -> strays_ok (length inputs) tmp0 ->
+  lookup_key k (objs (sfs (gruns D excl g objs0 tmp0 inputs sched))) = Some c -> Hk D c = k.
+Proof. exact multi_objects_well_keyed. Qed.
+Print Assumptions C18_multi_objects_hash_to_their_key.
+
+Theorem C18_multi_create_result : forall D excl g objs0 tmp0 inputs sched tid t s0 r,
+  wf_objs D objs0 -> strays_ok (length inputs) tmp0 ->
+  nth_error (sthr (gruns D excl g objs0 tmp0 inputs sched)) tid = Some t ->
+  nth_error inputs tid = Some s0 ->
+  res t = Some r ->
+  lookup_nat tid (tmp (sfs (gruns D excl g objs0 tmp0 inputs sched))) = None /\
+  match r with
+  | ROk k =>
+      drain s0 = (acc t, REof) /\ k = Hk D (acc t) /\
+      exists c, lookup_key k (objs (sfs (gruns D excl g objs0 tmp0 inputs sched))) = Some c /\ Hk D c = k
+  | RErr e => committed t = false /\ (forall x, e = EInput x -> snd (drain s0) = RFail x)
+  | RPanic => committed t = false /\ exists x, valid_key gen_key_len gen_key_ranges (Hk D x) = false
+  end.
+Proof. exact multi_create_result. Qed.
+Print Assumptions C18_multi_create_result.
+
+(** When all calls have returned, tmp/ holds exactly what was lying there
+    before; and those files are never touched at any moment. *)
+Theorem C18_multi_no_temp_left : forall D excl g objs0 tmp0 inputs sched j,
+  wf_objs D objs0 -> strays_ok (length inputs) tmp0 ->
+  all_done (gruns D excl g objs0 tmp0 inputs sched) ->
+  lookup_nat j (tmp (sfs (gruns D excl g objs0 tmp0 inputs sched))) = lookup_nat j tmp0.
+Proof. exact multi_no_temp_left. Qed.
+Print Assumptions C18_multi_no_temp_left.
+
+Theorem C18_multi_strays_untouched : forall D excl g objs0 tmp0 inputs sched j,
+  wf_objs D objs0 -> strays_ok (length inputs) tmp0 ->
+  (length inputs <= j)%nat ->
+  lookup_nat j (tmp (sfs (gruns D excl g objs0 tmp0 inputs sched))) = lookup_nat j tmp0.
+Proof. exact multi_strays_untouched. Qed.
+Print Assumptions C18_multi_strays_untouched.
+
+Theorem C18_multi_objects_provenance : forall D excl g objs0 tmp0 inputs sched k c,
+  wf_objs D objs0 -> strays_ok (length inputs) tmp0 ->
+  lookup_key k (objs (sfs (gruns D excl g objs0 tmp0 inputs sched))) = Some c ->
+  In (k, c) objs0 \/
+  exists tid s0, nth_error inputs tid = Some s0 /\ drain s0 = (c, REof) /\ k = Hk D c.
+Proof. exact multi_objects_provenance. Qed.
+Print Assumptions C18_multi_objects_provenance.
+
+(** Open and Has from any number of threads at any moments: what Open
+    returns hashes to the key asked for and is the complete content of an
+    initial object or of some call's whole input, never a file in the making. *)
+Theorem C18_open_has_threads_sound : forall D excl g og objs0 tmp0 inputs obs sched j o r,
+  wf_objs D objs0 -> strays_ok (length inputs) tmp0 ->
+  nth_error (mo (mrun D excl gen_fs_commit gen_key_len gen_key_ranges g og
+                      (minit gen_fs_create objs0 tmp0 inputs obs) sched)) j = Some (o, Some r) ->
+  obs_sound D objs0 inputs o r.
+Proof. exact multi_observers_sound. Qed.
+Print Assumptions C18_open_has_threads_sound.
+
 (** ** In-memory and mapped stores *)
 
 (** Any sequence of Put/Create/Get/Open/Has (directly or through the mapped
@@ -203,25 +277,49 @@ Theorem C18_mem_create_then_found : forall D st s c,
   let st1 := fst (mem_step D gen_mem_put_copies gen_mem_get_copies st (MCreate s)) in
   snd (mem_step D gen_mem_put_copies gen_mem_get_copies st (MCreate s)) = MRKey (HkM D c) /\
   snd (mem_step D gen_mem_put_copies gen_mem_get_copies st1 (MHas (HkM D c))) = MRBool true /\
-  exists c', snd (mem_step D gen_mem_put_copies gen_mem_get_copies st1 (MOpen (HkM D c))) = MRBytes c'.
+  snd (mem_step D gen_mem_put_copies gen_mem_get_copies st1 (MOpen (HkM D c))) = MRBytes c.
 Proof. exact mem_create_then_has. Qed.
 Print Assumptions C18_mem_create_then_found.
 
-(** ** CheckReader *)
+(** The JSON helpers (objects/json.go): CreateJSON then ReadJSON gives the
+    value back, and whatever ReadJSON decodes was decoded from bytes that
+    hash to the key.  [enc] / [dec] stand for encoding/json. *)
+Theorem C18_json_roundtrip : forall D V (enc : V -> option bytes) (dec : bytes -> option V) st v bs,
+  enc v = Some bs -> dec bs = Some v ->
+  snd (create_json D gen_mem_put_copies gen_mem_get_copies V enc st v) = MRKey (HkM D bs) /\
+  read_json D gen_mem_put_copies gen_mem_get_copies V dec
+            (fst (create_json D gen_mem_put_copies gen_mem_get_copies V enc st v)) (HkM D bs) = JVal V v.
+Proof. exact (fun D V => @mem_json_roundtrip D V). Qed.
+Print Assumptions C18_json_roundtrip.
+
+Theorem C18_read_json_from_matching_bytes : forall D V (dec : bytes -> option V) st k v,
+  mem_ok D st ->
+  read_json D gen_mem_put_copies gen_mem_get_copies V dec st k = JVal V v ->
+  exists c, HkM D c = k /\ dec c = Some v.
+Proof. exact (fun D V => @mem_read_json_from_matching_bytes D V). Qed.
+Print Assumptions C18_read_json_from_matching_bytes.
+
+(** ** CheckReader
+
+    The reader's byte count is Go's int64 ([wrap64] in the model).  [small b]:
+    fewer than 2^63 bytes — every stream there will ever be; within that
+    bound the count is exact and the declared-length check cannot be fooled
+    (beyond it the count wraps: [wrap64_at_the_edge]). *)
 
 (** For every script of the underlying reader (every chunking, both EOF
     styles, errors at any point): end of stream is reported exactly when the
     underlying stream ended cleanly, its bytes have the expected digest, and
     their number is the declared one if one was declared. *)
 Theorem C18_check_reader_eof_iff : forall D want n s,
-  snd (cr_consume D (new_cr want n) s) = CEof <->
-  snd (drain s) = REof /\ D (fst (drain s)) = want /\
-  ((n < 0)%Z \/ lenZ (fst (drain s)) = n).
+  small (fst (drain s)) ->
+  (snd (cr_consume D (new_cr want n) s) = CEof <->
+   snd (drain s) = REof /\ D (fst (drain s)) = want /\
+   ((n < 0)%Z \/ lenZ (fst (drain s)) = n)).
 Proof. exact check_reader_eof_iff. Qed.
 Print Assumptions C18_check_reader_eof_iff.
 
 Theorem C18_check_reader_every_call : forall D s r i,
-  cr_ok r ->
+  cr_ok r -> (lenZ (cr_acc r ++ delivered s) < two63Z)%Z ->
   nth_error (cr_trace D r s) i =
   match nth_error s i with
   | Some (chunk, st) =>
@@ -232,24 +330,42 @@ Theorem C18_check_reader_every_call : forall D s r i,
 Proof. exact cr_trace_spec. Qed.
 Print Assumptions C18_check_reader_every_call.
 
+(** A caller that stops reading early has been told nothing: a call reports
+    end-of-stream only if the underlying reader did so on that very call and
+    everything handed out up to and including it has the expected digest and
+    length.  (A caller that reads exactly the declared number of bytes and
+    never asks for more gets no verdict at all.) *)
+Theorem C18_check_reader_eof_at_call : forall D want n s i c,
+  small (delivered s) ->
+  nth_error (cr_trace D (new_cr want n) s) i = Some (c, CEof) ->
+  nth_error s i = Some (c, REof) /\
+  D (delivered (firstn (S i) s)) = want /\
+  ((n < 0)%Z \/ lenZ (delivered (firstn (S i) s)) = n).
+Proof. exact check_reader_eof_at_call. Qed.
+Print Assumptions C18_check_reader_eof_at_call.
+
 Theorem C18_check_reader_transparent : forall D want n s,
+  small (fst (drain s)) ->
   fst (cr_consume D (new_cr want n) s) = fst (drain s).
 Proof. exact check_reader_transparent. Qed.
 Print Assumptions C18_check_reader_transparent.
 
 Theorem C18_check_reader_ends_in_eof_or_error : forall D want n s,
+  small (fst (drain s)) ->
   snd (cr_consume D (new_cr want n) s) <> CNil.
 Proof. exact check_reader_terminal. Qed.
 Print Assumptions C18_check_reader_ends_in_eof_or_error.
 
 Theorem C18_check_reader_passes_errors : forall D want n s e,
+  small (fst (drain s)) ->
   snd (drain s) = RFail e -> snd (cr_consume D (new_cr want n) s) = CFail e.
 Proof. exact check_reader_passes_errors. Qed.
 Print Assumptions C18_check_reader_passes_errors.
 
-(** With a declared length, every truncation and every extension is an
-    error, with no assumption about the hash. *)
+(** With a declared length, every truncation and every extension (of fewer
+    than 2^63 bytes) is an error, with no assumption about the hash. *)
 Theorem C18_check_reader_wrong_length_is_error : forall D x s,
+  small (fst (drain s)) ->
   snd (drain s) = REof ->
   length (fst (drain s)) <> length x ->
   snd (cr_consume D (new_cr (D x) (lenZ x)) s) = CBadLen.
@@ -258,6 +374,7 @@ Print Assumptions C18_check_reader_wrong_length_is_error.
 
 (** Any other stream accepted as [x] is a collision of the hash. *)
 Theorem C18_check_reader_wrong_bytes_need_collision : forall D x n s,
+  small (fst (drain s)) ->
   (n < 0)%Z \/ n = lenZ x ->
   fst (drain s) <> x ->
   snd (cr_consume D (new_cr (D x) n) s) = CEof ->
@@ -266,6 +383,7 @@ Proof. exact check_reader_wrong_bytes_is_error. Qed.
 Print Assumptions C18_check_reader_wrong_bytes_need_collision.
 
 Theorem C18_check_reader_accepts_genuine : forall D x n s,
+  small x ->
   (n < 0)%Z \/ n = lenZ x ->
   drain s = (x, REof) ->
   cr_consume D (new_cr (D x) n) s = (x, CEof).
@@ -273,11 +391,20 @@ Proof. exact check_reader_accepts_genuine. Qed.
 Print Assumptions C18_check_reader_accepts_genuine.
 
 Theorem C18_check_reader_verdict_is_sticky : forall D want n s k i c st,
+  small (delivered s) ->
   nth_error (cr_trace D (new_cr want n) (s ++ repeat ([], REof) k)) (length s + i) = Some (c, st) ->
   (i < k)%nat ->
   c = [] /\ st = verdict D (declared n) want (delivered s) REof.
 Proof. exact check_reader_sticky. Qed.
 Print Assumptions C18_check_reader_verdict_is_sticky.
+
+(** Where the int64 count wraps: 2^63 - 1 is still exact, one more byte makes
+    it negative, and 2^64 extra bytes are invisible to it. *)
+Theorem C18_check_reader_count_wraps_only_at_2_63 :
+  wrap64 (two63Z - 1) = (two63Z - 1)%Z /\ wrap64 two63Z = (- two63Z)%Z /\
+  forall k, (0 <= k < two63Z)%Z -> wrap64 (k + 2 * two63Z) = k.
+Proof. exact wrap64_at_the_edge. Qed.
+Print Assumptions C18_check_reader_count_wraps_only_at_2_63.
 
 Theorem C18_new_check_reader_of_hex : forall d n,
   is_bytes d -> length d = 32%nat ->
@@ -348,9 +475,60 @@ Example C18_nonvacuous_os_fault :
   lock (sfs s) = None.
 Proof. vm_compute. repeat split. Qed.
 
+Example C18_nonvacuous_small : small [1; 2; 3] /\ small (delivered [([1], RNil); ([2; 3], REof)]).
+Proof. split; reflexivity. Qed.
+
 Example C18_nonvacuous_check_reader :
   cr_consume toyD (new_cr (toyD [1; 2; 3]) 3) [([1], RNil); ([2; 3], REof)] = ([1; 2; 3], CEof) /\
   cr_consume toyD (new_cr (toyD [1; 2; 3]) 3) [([1], RNil); ([2], REof)] = ([1; 2], CBadLen) /\
   cr_consume toyD (new_cr (toyD [1; 2; 3]) (-1)) [([1; 2; 4], RNil); ([], REof)] = ([1; 2; 4], CBadHash) /\
   cr_consume toyD (new_cr (toyD [1; 2; 3]) 3) [([1; 2; 3], RFail 4)] = ([1; 2; 3], CFail 4).
 Proof. vm_compute. repeat split. Qed.
+
+(** What the atomic rename is relied upon for.  A commit that copies the temp
+    file to its final name in two writes instead of renaming it (skeleton
+    [fs_commit_copy_skel], NOT the deployed code): an Open that does not wait
+    for this store object's lock (no read lock, or a second store object on
+    the directory) between the two writes gets a prefix, which does not hash
+    to the key it asked for. *)
+Example C18_copy_commit_open_sees_prefix_refuted :
+  let k := Hk toyD [1; 2; 3; 4] in
+  let s := mrun toyD true fs_commit_copy_skel gen_key_len gen_key_ranges
+             (fun _ _ => true) (fun _ _ => true)
+             (minit gen_fs_create [] [] [[([1; 2; 3; 4], REof)]] [OOpen k; OOpen k])
+             (map ECreate (repeat (0%nat, false) 10) ++ [EObserve 0%nat]
+              ++ map ECreate (repeat (0%nat, false) 5) ++ [EObserve 1%nat]) in
+  map snd (mo s) = [Some (ORes (OFound [1; 2])); Some (ORes (OFound [1; 2; 3; 4]))] /\
+  Hk toyD [1; 2] <> k /\
+  map res (sthr (ms s)) = [Some (ROk k)].
+Proof. vm_compute. repeat split. discriminate. Qed.
+
+(** The same schedule with the deployed skeleton: the first Open finds
+    nothing, the second the whole object. *)
+Example C18_rename_commit_open_sees_nothing_or_all :
+  let k := Hk toyD [1; 2; 3; 4] in
+  let s := mrun toyD true gen_fs_commit gen_key_len gen_key_ranges
+             (fun _ _ => true) (fun _ _ => true)
+             (minit gen_fs_create [] [] [[([1; 2; 3; 4], REof)]] [OOpen k; OOpen k])
+             (map ECreate (repeat (0%nat, false) 9) ++ [EObserve 0%nat]
+              ++ map ECreate (repeat (0%nat, false) 5) ++ [EObserve 1%nat]) in
+  map snd (mo s) = [Some (ORes ONotFound); Some (ORes (OFound [1; 2; 3; 4]))] /\
+  map res (sthr (ms s)) = [Some (ROk k)].
+Proof. vm_compute. repeat split. Qed.
+
+(** Two store objects (threads 0 and 1 through the first, thread 2 through
+    the second), equal contents, a file already in tmp/:
+    one object, the stray untouched, nothing else left. *)
+Example C18_nonvacuous_two_stores :
+  let dom := fun i => match i with 2%nat => 1%nat | _ => 0%nat end in
+  let inputs := [ [([5; 6], REof)]; [([5], RNil); ([6], REof)]; [([5; 6], RNil); ([], REof)] ] in
+  let sched := flat_map (fun i => [(i, false)]) (flat_map (fun _ => [0; 2; 1]%nat) (repeat tt 20)) in
+  let s := gruns toyD false (guard_stores dom) [] [(7%nat, [9; 9])] inputs sched in
+  strays_ok (length inputs) [(7%nat, [9; 9])] /\
+  map res (sthr s) = repeat (Some (ROk (Hk toyD [5; 6]))) 3 /\
+  map fst (objs (sfs s)) = [Hk toyD [5; 6]] /\
+  tmp (sfs s) = [(7%nat, [9; 9])].
+Proof.
+  split; [intros j Hj; do 3 (destruct j as [|j]; [reflexivity|]); cbn in Hj; lia|].
+  vm_compute. repeat split.
+Qed.
